@@ -178,6 +178,10 @@ pub fn run_script(p: &Profile, rng: &mut Rng, tier: Tier) -> Trace {
 /// Pipe many cases through the Lean driver in one process. Each case is framed by
 /// `case <n>` … `end`; the driver prints one line per op plus `ok` for case/end lines.
 pub fn run_model(driver: &str, cases: &[&[String]]) -> Result<Vec<Vec<String>>, String> {
+    if driver == "none" {
+        // model unavailable (its build is broken): only the implementation oracles can judge
+        return Err("no-model".to_string());
+    }
     let mut input = String::new();
     for (i, ops) in cases.iter().enumerate() {
         input.push_str(&format!("case {}\n", i));
